@@ -52,10 +52,9 @@ func c20InDomain(r rune) bool {
 }
 
 type c20Pat struct {
-	pat   string
-	o     Opts
-	fam   string
-	guard string
+	pat string
+	o   Opts
+	fam string
 }
 
 // hand-written shapes beyond the templates of c20-case: Unicode categories (also the negated cased-letter
@@ -69,13 +68,14 @@ var c20Extra = []string{
 	`[\s\S-[k]]`, `[a-z-[k-s]]`, `[^a-z-[s]]`, `(?i:a)b`, `(?i:[a-c])\b`,
 }
 
-// literals that have a case partner but are neither Lu nor Ll (titlecase letters, Roman numerals, circled
-// letters): nodeWithCaseConversion leaves them as One - known finding ci_titlecase_literal
-var c20Titlecase = []string{`ᾈ`, `xᾈ`, `ᾈ+`, `Ⅰ`, `Ⅰ*x`, `Ⓐ`, `aⒶ`, `(ᾈ)\1`}
+// regression corpus of the repaired defect e0fcd53: literals that have a case partner but are neither Lu
+// nor Ll (titlecase letters, Roman numerals, circled letters) used to stay One nodes ((?i)ᾈ did not match
+// "ᾀ", (?i)Ⅰ not "ⅰ"); relation A includes their mutual pairs although they lie outside the four blocks
+var c20Titlecase = []string{`ᾈ`, `xᾈ`, `ᾈ+`, `Ⅰ`, `Ⅰ*x`, `Ⓐ`, `aⒶ`, `(ᾈ)\1`, `[ᾈ]`, `[^Ⅰ]`}
 
-// the same defect seen through a fold orbit of three: U+01C5 etc. (only related to their partners by
-// the orbit relation, not by a mutual upper/lower pair)
-var c20TitlecaseOrbit = []string{`ǅ`, `xǅ`, `ǅ+`, `ǈ`, `[ǅ]`, `ǲ?a`}
+// the same defect seen through a fold orbit of three: U+01C5 etc. are related to their partners only by
+// the orbit relation B ((?i)ǅ did not match "ǆ")
+var c20TitlecaseOrbit = []string{`ǅ`, `xǅ`, `ǅ+`, `ǈ`, `[ǅ]`, `ǲ?a`, `[^ǅ]`}
 
 var c20OrbitPats = []string{
 	`k`, `s+`, `[k-s]`, `[^k]x`, `ks`, `µ`, `[µ]`, `σ`, `ς`, `[σ-ω]`, `θ+`, `д`, `[а-я]`, `[^д]`, `å`, `ω`, `[^ω]`, `ß`, `[ß]`, `ǆ`, `Ǆ`, `[ǆ-ǌ]`,
@@ -179,11 +179,11 @@ var c20OrbitSample = []rune{'k', 's', 'µ', 'σ', 'ǅ', 'д', 'θ', 'ω', 'å', 
 var c20Others = []rune{'0', '9', '_', '-', ' ', ',', '\n', '\t', '́', 0x2028, '中'}
 
 func legC20Closed(c *Ctx) {
-	c.Rule("IgnoreCase patterns: the templates and the random-AST generator of leg c20-case (literals, classes, negated classes, subtractions, back-references in both directions, lookarounds, atomic groups, anchors; letters of ASCII/Latin-1/Greek/Cyrillic), hand-written shapes with Unicode categories (incl. the negated cased-letter categories of known finding ci_negated_case_category), both word-boundary dialects, conditionals and letters whose fold orbit has a third member (k s д σ β ǆ å ω). Per pattern the REAL parsed+optimised tree is exported with oracle tables (membership in every class of the tree, unicode.ToLower, IsWordChar, IsECMAWordChar) on a finite universe U = letters of the pattern and of the tree (One/Multi runes, members of the exported classes), their case partners, all ASCII letters, a fixed and a random sample of other letters with their partners, digits/punctuation/newline; relation A (every pattern): sim = the mutual simple case pairs {l,u} inside U (ToLower(u)=l, ToUpper(l)=u; contains every letter whose fold orbit is a plain pair; restricted to the claimed domain ASCII/Latin-1/Greek/Cyrillic + partners, U+0130 U+00D7 U+1E9E have no mutual partner and are therefore case-less here); relation B (back-reference-free trees of a hand-written family with K/ſ/µ/ς/ǅ/ᲁ...): sim = all pairs inside a unicode.SimpleFold orbit. The proved checker ci_closedb must accept the tree (model leg 2001; answer [1]; otherwise the replay names preorder index, node type and rune/set of the first rejected leaf). By design outside the claim: case-sensitive islands (?-i:...), block/script categories (\\p{IsGreek} is not folded), relation B with back-references (ToLower does not identify σ/ς). Literals that have a case partner but are neither Lu nor Ll (titlecase letters, Roman numerals, circled letters) stay One nodes: guard ci_titlecase_literal. Second part (model leg 2002): single-letter IgnoreCase patterns x, x*, x+?, x{2} for several hundred runes: the leaf of the real tree (node family, option word, rune or class fields) equals Model/CaseLink.unit_leaf computed from unicode.IsLower/IsUpper/SimpleFold. Non-trivial = the tree has a leaf whose check consults at least one pair (distinct by pattern, options, relation)")
+	c.Rule("IgnoreCase patterns: the templates and the random-AST generator of leg c20-case (literals, classes, negated classes, subtractions, back-references in both directions, lookarounds, atomic groups, anchors; letters of ASCII/Latin-1/Greek/Cyrillic), hand-written shapes with Unicode categories (incl. the negated cased-letter categories of known finding ci_negated_case_category), both word-boundary dialects, conditionals and letters whose fold orbit has a third member (k s д σ β ǆ å ω). Per pattern the REAL parsed+optimised tree is exported with oracle tables (membership in every class of the tree, unicode.ToLower, IsWordChar, IsECMAWordChar) on a finite universe U = letters of the pattern and of the tree (One/Multi runes, members of the exported classes), their case partners, all ASCII letters, a fixed and a random sample of other letters with their partners, digits/punctuation/newline; relation A (every pattern): sim = the mutual simple case pairs {l,u} inside U (ToLower(u)=l, ToUpper(l)=u; contains every letter whose fold orbit is a plain pair; restricted to the claimed domain ASCII/Latin-1/Greek/Cyrillic + partners, U+0130 U+00D7 U+1E9E have no mutual partner and are therefore case-less here); relation B (back-reference-free trees of a hand-written family with K/ſ/µ/ς/ǅ/ᲁ...): sim = all pairs inside a unicode.SimpleFold orbit. The proved checker ci_closedb must accept the tree (model leg 2001; answer [1]; otherwise the replay names preorder index, node type and rune/set of the first rejected leaf). By design outside the claim: case-sensitive islands (?-i:...), block/script categories (\\p{IsGreek} is not folded), relation B with back-references (ToLower does not identify σ/ς). Regression corpus of repaired defect e0fcd53: literals that have a case partner but are neither Lu nor Ll (titlecase ᾈ ǅ, Roman numerals, circled letters) must be Set nodes now. Second part (model leg 2002): single-letter IgnoreCase patterns x, x*, x+?, x{2} for several hundred runes: the leaf of the real tree (node family, option word, rune or class fields) equals Model/CaseLink.unit_leaf computed from unicode.SimpleFold. Non-trivial = the tree has a leaf whose check consults at least one pair (distinct by pattern, options, relation)")
 	c16Setup()
 	hits := map[string]int{}
 
-	// Unicode fact used as hypothesis of C20_unit_leaf_closed_pairs: cased letters of the claimed domain are Lu or Ll
+	// Unicode facts behind relation A on the claimed domain
 	{
 		var bad []string
 		n := 0
@@ -196,9 +196,6 @@ func legC20Closed(c *Ctx) {
 				continue
 			}
 			n++
-			if !(unicode.IsLower(r) || unicode.IsUpper(r)) || !(unicode.IsLower(p) || unicode.IsUpper(p)) {
-				bad = append(bad, fmt.Sprintf("%U", r))
-			}
 			orb := c20Orbit(r)
 			in := false
 			for _, x := range orb {
@@ -211,7 +208,7 @@ func legC20Closed(c *Ctx) {
 				bad = append(bad, fmt.Sprintf("%U word/lower differs from partner", r))
 			}
 		}
-		cs := &Case{Desc: fmt.Sprintf("Unicode facts on the claimed domain: %d runes with a mutual case partner are Lu or Ll, share the fold orbit, ToLower and the word-character tests with the partner", n), Nontrivial: true, Class: "facts"}
+		cs := &Case{Desc: fmt.Sprintf("Unicode facts on the claimed domain: %d runes with a mutual case partner share the fold orbit, ToLower and the word-character tests with the partner", n), Nontrivial: true, Class: "facts"}
 		if len(bad) > 0 {
 			cs.Direct = "fails for " + strings.Join(bad, ", ")
 		}
@@ -220,17 +217,17 @@ func legC20Closed(c *Ctx) {
 
 	var pats []c20Pat
 	for _, t := range ciTemplates {
-		pats = append(pats, c20Pat{t, Opts{I: true}, "template", ""}, c20Pat{t, Opts{I: true, RTL: true}, "template", ""})
+		pats = append(pats, c20Pat{t, Opts{I: true}, "template"}, c20Pat{t, Opts{I: true, RTL: true}, "template"})
 	}
 	for _, t := range []string{`\1(a)`, `\1b(a)`, `\k<n>(?<n>[a-c])`, `\1+(é)`} {
-		pats = append(pats, c20Pat{t, Opts{I: true, RTL: true}, "template", ""})
+		pats = append(pats, c20Pat{t, Opts{I: true, RTL: true}, "template"})
 	}
 	for _, t := range c20Extra {
-		pats = append(pats, c20Pat{t, Opts{I: true}, "extra", ""}, c20Pat{t, Opts{I: true, RTL: true}, "extra", ""},
-			c20Pat{t, Opts{I: true, ECMA: true}, "extra", ""})
+		pats = append(pats, c20Pat{t, Opts{I: true}, "extra"}, c20Pat{t, Opts{I: true, RTL: true}, "extra"},
+			c20Pat{t, Opts{I: true, ECMA: true}, "extra"})
 	}
 	for _, t := range c20Titlecase {
-		pats = append(pats, c20Pat{t, Opts{I: true}, "titlecase", "ci_titlecase_literal"})
+		pats = append(pats, c20Pat{t, Opts{I: true}, "titlecase"}, c20Pat{t, Opts{I: true, RTL: true}, "titlecase"})
 	}
 	n := c.N(1500, 30000)
 	for i := 0; i < n; i++ {
@@ -242,7 +239,7 @@ func legC20Closed(c *Ctx) {
 		cfg := GenCfg{Lits: lits, MaxDepth: 2 + c.Rng.Intn(3), NullableReps: true, Look: true, Behind: true, Backref: true, Atomic: true,
 			Cond: c.Rng.Chance(30), Named: c.Rng.Chance(30), Anchors: []string{"^", "$", `\b`, `\B`, `\z`}, Classes: true, Shorthand: true, MaxRep: 3, Opts: o}
 		ast := GenAst(c.Rng, cfg)
-		pats = append(pats, c20Pat{ast.Pattern(o, nil), o, "random", ""})
+		pats = append(pats, c20Pat{ast.Pattern(o, nil), o, "random"})
 	}
 
 	type job struct {
@@ -254,10 +251,10 @@ func legC20Closed(c *Ctx) {
 		jobs = append(jobs, job{p, false})
 	}
 	for _, t := range c20OrbitPats {
-		jobs = append(jobs, job{c20Pat{t, Opts{I: true}, "orbit", ""}, true}, job{c20Pat{t, Opts{I: true, RTL: true}, "orbit", ""}, true})
+		jobs = append(jobs, job{c20Pat{t, Opts{I: true}, "orbit"}, true}, job{c20Pat{t, Opts{I: true, RTL: true}, "orbit"}, true})
 	}
 	for _, t := range c20TitlecaseOrbit {
-		jobs = append(jobs, job{c20Pat{t, Opts{I: true}, "orbit-titlecase", "ci_titlecase_literal"}, true})
+		jobs = append(jobs, job{c20Pat{t, Opts{I: true}, "orbit-titlecase"}, true})
 	}
 
 	for _, j := range jobs {
@@ -357,7 +354,7 @@ func legC20Closed(c *Ctx) {
 		} else {
 			for _, r := range us {
 				q, ok := c20Partner(r)
-				if ok && r == unicode.ToLower(r) && U[q] && (p.guard != "" || (c20InDomain(r) || c20InDomain(q))) {
+				if ok && r == unicode.ToLower(r) && U[q] && (p.fam == "titlecase" || c20InDomain(r) || c20InDomain(q)) {
 					pairs = append(pairs, int64(r), int64(q))
 					np++
 				}
@@ -376,16 +373,7 @@ func legC20Closed(c *Ctx) {
 		}
 		desc := fmt.Sprintf("pattern %q opts=%s relation=%s: tree (preorder idx:NodeType) %s; |U|=%d, %d pairs; the proved checker must accept it", p.pat, p.o, rel, sb.String(), len(us), np)
 		leafy := th["One"]+th["Notone"]+th["charloop"]+th["Set"]+th["Multi"]+th["Ref"]+th["Boundary"]+th["ECMABoundary"]+th["newline anchor"] > 0
-		guard := p.guard
-		if guard == "" {
-			// a literal rune with a case partner that the parser left as One/Multi: the titlecase finding
-			for _, r := range lits {
-				if unicode.SimpleFold(r) != r && !unicode.IsLower(r) && !unicode.IsUpper(r) {
-					guard = "ci_titlecase_literal"
-				}
-			}
-		}
-		c.Add(&Case{Desc: desc, ModelLeg: 2001, ModelIn: in, ImplOut: []int64{1}, Nontrivial: leafy, Key: p.pat + p.o.String() + rel, Class: p.fam, Guard: guard})
+		c.Add(&Case{Desc: desc, ModelLeg: 2001, ModelIn: in, ImplOut: []int64{1}, Nontrivial: leafy, Key: p.pat + p.o.String() + rel, Class: p.fam})
 	}
 
 	// ---- the single-letter unit ----
@@ -454,7 +442,7 @@ func legC20Closed(c *Ctx) {
 				caseRunes = append(caseRunes, x)
 			}
 			in := c16EncOracle(nil, nil, dedupRunes(caseRunes))
-			in = append(in, b2i(unicode.IsLower(r)), b2i(unicode.IsUpper(r)), 0, int64(o.bits()), int64(r))
+			in = append(in, 0, int64(o.bits()), int64(r))
 			c.Add(&Case{Desc: fmt.Sprintf("single-letter unit: pattern %q opts=%s rune %U -> leaf %s %v", pat, o, r, kind, impl),
 				ModelLeg: 2002, ModelIn: in, ImplOut: impl, Nontrivial: unicode.SimpleFold(r) != r, Key: pat + o.String(), Class: "unit-" + kind})
 		}
